@@ -141,6 +141,18 @@ type Sched struct {
 
 var s = &Sched{}
 
+// FireTimersOnlyWhenIdle removes "a timer fires now" from the alternatives as
+// long as some program thread can run (used by checks whose property is not
+// about timeouts: virtual time then never runs out under a running program).
+var FireTimersOnlyWhenIdle = false
+
+// CountSwitchChoiceAtBlock: when the running thread blocks or ends, the default is
+// to continue with the lowest-numbered runnable thread; with this flag every
+// other choice costs one deviation (by default such choices are free, as in
+// preemption bounding). Harnesses with several independent task groups use it
+// to keep the bounded space finite in practice.
+var CountSwitchChoiceAtBlock = false
+
 type abortSentinel struct{}
 
 func (sc *Sched) newThread(name string, fn func()) *thread {
@@ -296,7 +308,7 @@ func (sc *Sched) pickNext(running *thread) *thread {
 	}
 	nprog := len(list)
 	for _, t := range sc.threads {
-		if t.isTimer() && sc.enabled(t) {
+		if t.isTimer() && sc.enabled(t) && !(FireTimersOnlyWhenIdle && nprog > 0) {
 			list = append(list, t)
 		}
 	}
@@ -310,6 +322,8 @@ func (sc *Sched) pickNext(running *thread) *thread {
 			costs[i] = 1 // switching away from a runnable thread is a preemption; so is firing a timer under it
 		case i >= nprog && nprog > 0:
 			costs[i] = 1 // a timer fires although program threads can run
+		case CountSwitchChoiceAtBlock:
+			costs[i] = 1 // the running thread blocked: running another than the first runnable thread is a deviation
 		}
 	}
 	c := sc.choose(PSchedule, len(list), costs, func() string {
